@@ -179,7 +179,28 @@ pub fn sys_arrays(tier: Tier) -> Vec<Layout> {
             }
         }
     }
+    out.extend(sys_multi_arrays());
     dedup(out)
+}
+
+/// several array fields in one declaration whose strides differ: explicit next to implicit, in both orders
+/// (state carried over from one field to the next shows only here)
+pub fn sys_multi_arrays() -> Vec<Layout> {
+    let mut out = Vec::new();
+    for b in [16u32, 32, 64, 128, 24, 65] {
+        let arr = |name: &str, lo: u32, w: u32, k: u32, stride: Option<u32>, ty: FieldTy| {
+            let mut f = fld(name, lo, w, ty, Access::RW);
+            f.array = Some(ArrayDecl { count: k, stride, colon: false });
+            f
+        };
+        // [u3; 2] stride 5 at 0 (bits 0..=7), then [u2; 2] implicit at 8 (8..=11), then [bool; 2] implicit at 12
+        out.push(lay(b, vec![arr("a", 0, 3, 2, Some(5), uty(3)), arr("b", 8, 2, 2, None, uty(2)), arr("c", 12, 1, 2, None, FieldTy::Bool)]));
+        // implicit first, explicit later
+        out.push(lay(b, vec![arr("a", 0, 2, 3, None, uty(2)), arr("b", 6, 1, 2, Some(4), uty(1)), arr("c", 12, 2, 2, None, uty(2))]));
+        // a plain field between two arrays; the second array has a wider element than the first one's stride
+        out.push(lay(b, vec![arr("a", 0, 1, 4, Some(2), FieldTy::Bool), fld("p", 8, 2, uty(2), Access::RW), arr("b", 10, 3, 2, None, uty(3))]));
+    }
+    out
 }
 
 fn dedup(v: Vec<Layout>) -> Vec<Layout> {
@@ -549,6 +570,7 @@ pub fn corpus(prop: &str, tier: Tier, seed: u64) -> Vec<(usize, Layout)> {
             v.extend(sys_signed(Tier::Quick).into_iter().step_by(3));
             v.extend(sys_lists(Tier::Quick).into_iter().step_by(5));
             v.extend(sys_wide_lists());
+            v.extend(sys_multi_arrays());
         }
         "C03" => {
             v.extend(sys_arrays(tier));
@@ -604,6 +626,10 @@ pub fn corpus(prop: &str, tier: Tier, seed: u64) -> Vec<(usize, Layout)> {
             v.extend(random(&p, seed, 2, nrand / 4));
             p.overlap = false;
             v.extend(random(&p, seed, 3, nrand / 4));
+            // histories through write-only fields, observed through read-only twins over the same bits
+            p.access = AccessMode::Mixed;
+            p.w_twin = true;
+            v.extend(random(&p, seed, 4, nrand / 4));
         }
         "C06" => {
             // every base width, every default form; half of them with fields
@@ -703,6 +729,7 @@ pub fn corpus(prop: &str, tier: Tier, seed: u64) -> Vec<(usize, Layout)> {
             v.extend(random(&p, seed, 1, nrand / 2));
             p.max_array = 128;
             p.default = DefaultMode::Always;
+            p.access = AccessMode::MixedWithNone;
             v.extend(random(&p, seed, 2, nrand / 4));
             p.default = DefaultMode::Never;
             p.access = AccessMode::AllRW;
